@@ -21,7 +21,7 @@ RULE = (
     "each public primitive writer/reader is paired with a reference implementation (int.to_bytes, own LEB128/zig-zag, "
     "own IEEE-754 bit construction via math.frexp): writer(v) bytes == reference bytes, reader(reference bytes + tail) "
     "== v with exact consumption. Domains: 8/16-bit ints exhaustive; 32/64-bit by every 2^k-1,2^k,2^k+1 and limits + "
-    "Hypothesis; unsigned/signed varint/varlong exhaustive below 2^14 (quick) / 2^21 (thorough) + every power-of-two "
+    "Hypothesis; unsigned/signed varint/varlong exhaustive below 2^16 (quick) / 2^21 (thorough) + every power-of-two "
     "neighbourhood up to the domain limit + Hypothesis; every byte string of length <=2 (quick; <=3 thorough) as varint "
     "input to all four varint readers vs the reference decoder; overlong (5/10 continuation bytes) -> ValueError; "
     "strings/bytes/arrays in legacy and compact form at lengths 0,1,126..129,16383,16384,32767 and null, first "
@@ -176,7 +176,7 @@ def section_fixed_ints(t: Tally, ctx: Ctx):
         for v in (lo - 1, hi + 1, lo - 2**width, hi + 2**70, -(2**70)):
             check_rejects(t, kind, writer, v)
         if width > 2:
-            n = 300 if ctx.quick else 5000
+            n = 1000 if ctx.quick else 5000
 
             @hypothesis.seed(ctx.subseed("ints", kind))
             @settings(max_examples=n, database=None, deadline=None, phases=[Phase.generate], suppress_health_check=list(HealthCheck))
@@ -216,7 +216,7 @@ def section_float(t: Tally, ctx: Ctx):
         v, used = rd(R.read_float64, bytes.fromhex(pat))
         if not (isinstance(v, float) and v != v) or used != 8:
             t.fail("float64:nan-reader", f"read_float64({pat}) = {v!r}", {"fn": "float64", "ref": pat})
-    n_ex = 500 if ctx.quick else 20000
+    n_ex = 1500 if ctx.quick else 20000
 
     @hypothesis.seed(ctx.subseed("float"))
     @settings(max_examples=n_ex, database=None, deadline=None, phases=[Phase.generate], suppress_health_check=list(HealthCheck))
@@ -284,7 +284,7 @@ def _varint_input_chunk(task):
 
 def section_varints(t: Tally, ctx: Ctx):
     table = _varint_table()
-    limit = 2**14 if ctx.quick else 2**21
+    limit = 2**16 if ctx.quick else 2**21
     tasks = []
     step = max(limit // 16, 1024)
     for name, (_w, _r, lo, hi, bits, _m) in table.items():
@@ -303,7 +303,7 @@ def section_varints(t: Tally, ctx: Ctx):
                 for vv in ((v,) if bits is None else (v // 2, -(v // 2) - 1, v // 2 - 1, -(v // 2))):
                     if lo <= vv <= hi:
                         check_codec(t, name, writer, reader, vv, _varint_ref(vv, bits), vv, True)
-        n = 500 if ctx.quick else 20000
+        n = 1500 if ctx.quick else 20000
 
         @hypothesis.seed(ctx.subseed("varint", name))
         @settings(max_examples=n, database=None, deadline=None, phases=[Phase.generate], suppress_health_check=list(HealthCheck))
@@ -445,7 +445,7 @@ def section_strings(t: Tally, ctx: Ctx):
             pass
         except Exception as e:
             t.fail(f"{name}:null-wrong-error", f"{r.__name__}({ref.hex()}) raised {e!r}", {"fn": name, "ref": ref.hex()})
-    n_ex = 200 if ctx.quick else 5000
+    n_ex = 600 if ctx.quick else 5000
 
     @hypothesis.seed(ctx.subseed("strings"))
     @settings(max_examples=n_ex, database=None, deadline=None, phases=[Phase.generate], suppress_health_check=list(HealthCheck))
@@ -552,7 +552,7 @@ def section_misc(t: Tally, ctx: Ctx):
         for ms in bnd:
             td = datetime.timedelta(milliseconds=ms)
             check_codec(t, name, w, r, td, be(ms, width, True), td, True)
-        n = 300 if ctx.quick else 10000
+        n = 1000 if ctx.quick else 10000
 
         @hypothesis.seed(ctx.subseed("td", name))
         @settings(max_examples=n, database=None, deadline=None, phases=[Phase.generate], suppress_health_check=list(HealthCheck))
@@ -593,7 +593,7 @@ def section_misc(t: Tally, ctx: Ctx):
             pass
         except Exception as e:
             t.fail("datetime_i64:out-of-range-wrong-error", f"read_datetime_i64({ms}) raised {e!r}", {"fn": "datetime_i64", "ms": ms})
-    n = 300 if ctx.quick else 10000
+    n = 1000 if ctx.quick else 10000
 
     @hypothesis.seed(ctx.subseed("ts"))
     @settings(max_examples=n, database=None, deadline=None, phases=[Phase.generate], suppress_health_check=list(HealthCheck))
